@@ -83,7 +83,7 @@ func oracleWeights() map[string]int {
 func init() {
 	registerWorldProp(&WorldProp{
 		ID: "C12",
-		Rule: "rapid histories of signed oracle price transactions through the full ante chain (1-5 validators with power splits around 2/3, 1-2 feeders with generated start blocks, intervals, end blocks and window sizes; agreeing, conflicting, duplicate, late and multi-source-round submissions in any order and block placement) plus stake changes that alter the validator set, against a round model; " +
+		Rule: "rapid histories of signed oracle price transactions through the full ante chain (1-5 validators with power splits around 2/3, 1-2 feeders with generated start blocks, intervals, end blocks and window sizes; agreeing, conflicting, duplicate, late and multi-source-round submissions in any order and block placement) plus stake changes that alter the validator set and node restarts at 8% of the block boundaries, against a round model; " +
 			"non-trivial = a history with at least one round closed by consensus and one closed by carry-forward, with at least 3 validators of unequal power; distinct = hash of the (kind, outcome) sequence",
 		Gen:      GenOpts{Weights: oracleWeights(), HostilePct: 10, ExtremePct: 0, Anchor: true, Tempos: []int{3, 8, 30}, CapBits: 40, ClampBits: 40, TwoSignerPct: 6, RestartPct: 8, Dynamic: oracleDynamic},
 		MinSteps: 30,
